@@ -263,3 +263,135 @@ def install():
     probe.install(ode, 'adaptive_step_size', Adaptive())
     ode.__vt_c09__ = True
     return ode
+
+
+# ================================================================================ C10: splitting integrators ==
+
+W1 = 1.0 / (2.0 - 2.0 ** (1.0 / 3.0))          # Yoshida (1990), triple-jump coefficients
+W0 = -(2.0 ** (1.0 / 3.0)) / (2.0 - 2.0 ** (1.0 / 3.0))
+# Kahan & Li (1997), symmetric 17-stage composition of order 8 (a_1..a_9; stages a_1..a_8,a_9,a_8..a_1)
+KL = [0.13020248308889008087881763, 0.56116298177510838456196441, -0.38947496264484728640807860, 0.15884190655515560089621075,
+      -0.39590389413323757733623154, 0.18453964097831570709183254, 0.25837438768632204729397911, 0.29501172360931029887096624,
+      -0.60550853383003451169892108]
+
+
+def _as_list(X, d):
+    return list(X) if isinstance(X, list) else [X] * d
+
+
+def slim_dense(S, L, I, M, d):
+    """dense even/odd generators of the nearest-neighbour operator given by its components"""
+    Sl, Ll, Ml = _as_list(S, d), _as_list(L, d), _as_list(M, d)
+    dims = [Sl[i].shape[0] for i in range(d)]
+    n = int(np.prod(dims))
+
+    def embed(op, i, width):
+        left = int(np.prod(dims[:i]))
+        right = int(np.prod(dims[i + width:]))
+        return np.kron(np.kron(np.eye(left), op), np.eye(right))
+    cplx = any(np.iscomplexobj(x) for x in Sl + Ll + Ml)
+    A = [np.zeros((n, n), dtype=complex if cplx else float) for _ in range(2)]
+    for i in range(d - 1):
+        Li = Ll[i] if Ll[i].ndim == 3 else Ll[i][:, :, None]
+        Mi = Ml[i + 1] if Ml[i + 1].ndim == 3 else Ml[i + 1][None, :, :]
+        K = np.kron(Sl[i], np.eye(dims[i + 1]))
+        for k in range(Li.shape[2]):
+            K = K + np.kron(Li[:, :, k], Mi[k])
+        A[i % 2] = A[i % 2] + embed(K, i, 2)
+    A[(d - 1) % 2] = A[(d - 1) % 2] + embed(Sl[d - 1], d - 1, 1)
+    return A[0], A[1], dims
+
+
+def step_matrix(scheme, Ae, Ao, h):
+    import scipy.linalg as sla
+    with probe.oracle():
+        def strang(c):
+            E = sla.expm(0.5 * c * h * Ae)
+            return E @ sla.expm(c * h * Ao) @ E
+        if scheme == 'lie':
+            return sla.expm(h * Ao) @ sla.expm(h * Ae)
+        if scheme == 'strang':
+            return strang(1.0)
+        if scheme == 'yoshida':
+            return strang(W1) @ strang(W0) @ strang(W1)
+        if scheme == 'kahan_li':
+            seq = KL[:8] + [KL[8]] + KL[:8][::-1]
+            Phi = np.eye(Ae.shape[0])
+            for a in seq:
+                Phi = strang(a) @ Phi
+            return Phi
+    raise ValueError(scheme)
+
+
+class Splitting(ApiImmut):
+    def __init__(self, scheme):
+        ApiImmut.__init__(self, 'ode.%s_splitting' % scheme)
+        self.scheme = scheme
+
+    def post(self, st, res, args, kwargs):
+        ApiImmut.post(self, st, res, args, kwargs)
+        names = ['S', 'L', 'I', 'M', 'initial_value', 'step_size', 'number_of_steps', 'threshold', 'max_rank', 'normalize', 'K', 'tmp_rank']
+        v = parse(names, {'threshold': 1e-12, 'max_rank': 50, 'normalize': 1 if self.scheme == 'lie' else 0, 'K': None, 'tmp_rank': 0}, args, kwargs)
+        c = core.ctx()
+        P10 = 'C10'
+        x0 = v['initial_value']
+        d = x0.order
+        N = int(v['number_of_steps'])
+        tags = ['scheme=' + self.scheme, 'normalize=%s' % v['normalize'], 'site_dependent' if isinstance(v['S'], list) else 'homogeneous']
+        good = isinstance(res, list) and all(_is_tt(x) and tt_consistent(x)[0] for x in res)
+        c.check(self.api, 'returns_list_of_tt', good, tags, prop=P10)
+        if not good:
+            return
+        c.check(self.api, 'one_state_per_step_plus_initial', len(res) == N + 1, tags, {'len': len(res), 'steps': N}, prop=P10)
+        c.check(self.api, 'initial_state_heads_trajectory', res[0] is x0, tags, prop=P10)
+        if len(res) != N + 1 or int(np.prod(x0.row_dims)) > 512 or d < 2:
+            return
+        Ae, Ao, dims = slim_dense(v['S'], v['L'], v['I'], v['M'], d)
+        if dims != list(x0.row_dims):
+            return
+        mr = max(max_ranks(dims, [1] * d))
+        if v['threshold'] > 1e-10 or v['max_rank'] < mr or (v['tmp_rank'] not in (0, None) and v['tmp_rank'] < mr):
+            c.skip('splitting_truncation_effective')
+            return
+        h = v['step_size']
+        Phi = step_matrix(self.scheme, Ae, Ao, h)
+        A = Ae + Ao
+        skew = float(np.max(np.abs(A + A.conj().T))) <= 1e-12 * max(float(np.max(np.abs(A))), 1e-300) and \
+            float(np.max(np.abs(Ae + Ae.conj().T))) <= 1e-12 * max(float(np.max(np.abs(A))), 1e-300)
+        nz = v['normalize']
+        for k in range(N):
+            xk = vec(res[k])
+            y = Phi @ xk
+            if nz > 0:
+                y = y / lib_norm(y, nz)
+                check_unit_norm_p(c, self.api, res[k + 1], nz, tags, k, P10)
+            got = vec(res[k + 1])
+            sc = max(float(np.linalg.norm(y)), 1e-300)
+            err = float(np.linalg.norm(got - y)) / sc
+            c.check(self.api, 'equals_composed_local_propagators', err <= 1e-8, tags + ['order_parity=%d' % (d % 2)], {'step': k, 'h': h, 'dims': dims, 'rel_err': err}, prop=P10)
+            if skew and nz == 0:
+                n0, n1 = float(np.linalg.norm(xk)), float(np.linalg.norm(got))
+                c.check(self.api, 'norm_conserved_for_skew_hermitian_generator', abs(n1 - n0) <= 1e-9 * max(n0, 1e-300), tags, {'step': k, 'before': n0, 'after': n1}, prop=P10)
+        c.sig(self.api, dims, isinstance(v['S'], list), N, nz, bool(np.iscomplexobj(A)), skew, v['K'] is not None)
+
+
+def check_unit_norm_p(c, api, state, normalize, tags, k, prop):
+    y = vec(state)
+    if normalize == 2:
+        c.check(api, 'unit_2_norm', abs(np.linalg.norm(y) - 1) <= 1e-9, tags, {'step': k, 'norm': float(np.linalg.norm(y))}, prop=prop)
+    elif normalize == 1:
+        if np.iscomplexobj(y) or np.any(y < -1e-12 * np.max(np.abs(y))):
+            c.skip('norm1_on_data_with_negative_entries')
+            return
+        c.check(api, 'unit_1_norm', abs(np.sum(np.abs(y)) - 1) <= 1e-9, tags, {'step': k, 'norm': float(np.sum(np.abs(y)))}, prop=prop)
+
+
+def install_splitting():
+    global ode
+    ode = importlib.import_module('scikit_tt.solvers.ode')
+    if getattr(ode, '__vt_c10__', False):
+        return ode
+    for sch in ('lie', 'strang', 'yoshida', 'kahan_li'):
+        probe.install(ode, sch + '_splitting', Splitting(sch))
+    ode.__vt_c10__ = True
+    return ode
